@@ -73,6 +73,8 @@ def user_model(name):
 def make_lf(rec, **kw):
     from cogent3 import get_model
 
+    if rec.get("gc", 1) != 1:
+        kw = dict(kw, gc=rec["gc"])  # another genetic code: other sense codons, other synonymous partition
     sm = user_model(rec["name"]) if rec["name"].startswith("user:") else get_model(rec["name"], **kw)
     lf = sm.make_likelihood_function(tree())
     if rec["kind"] == "monomers":
@@ -88,7 +90,7 @@ def make_lf(rec, **kw):
 
 def check_Q(run, rec):
     """One MarkovQ instance against the real rate matrices on every edge."""
-    key0 = f"Q:{rec['name']}:{rec['kind']}"
+    key0 = f"Q:{rec['name']}:{rec['kind']}" + (f":gc={rec['gc']}" if rec.get("gc", 1) != 1 else "")
     try:
         lf = make_lf(rec)
     except Exception as ex:
